@@ -67,6 +67,7 @@ type treeSpec struct {
 	BottomUp      bool      `json:"bottom_up"`    // children are complete before they are mounted
 	RoutesFirst   bool      `json:"routes_first"` // endpoints registered before the child mounts
 	CustomCtx     bool      `json:"custom_ctx"`   // root uses NewCtxFunc (customRequestHandler path of router.go)
+	MixedCase     bool      `json:"mixed_case"`   // some mount prefixes contain upper-case letters
 }
 
 type customCtx struct {
@@ -449,25 +450,82 @@ func genTree(r *gen.Rand) *treeSpec {
 			ViaGroup: rel != "/" && r.Chance(1, 6),
 		})
 	}
+	mixPrefixCase(ts)
 	return ts
 }
 
+// mixPrefixCase gives a third of the trees mount prefixes with upper-case letters (direct,
+// and composed through nesting and groups because Full is the concatenation). It is a
+// post-pass with its own generator derived from the tree, so the trees and the draws of the
+// case's generator are the same as without it. Prefixes stay unique under case folding
+// because they were unique in lower case.
+func mixPrefixCase(ts *treeSpec) {
+	cr := gen.New(gen.Hash64("prefix-case", ts.describe()))
+	if !cr.Chance(1, 3) {
+		return
+	}
+	ts.MixedCase = true
+	for i := 1; i < len(ts.Apps); i++ {
+		a := &ts.Apps[i]
+		if a.Rel != "/" {
+			segs := strings.Split(a.Rel[1:], "/")
+			for k, sg := range segs {
+				if !cr.Bool() {
+					continue
+				}
+				b := []byte(sg)
+				switch cr.Intn(3) {
+				case 0: // Api
+					b[0] = upper(b[0])
+				case 1: // API
+					for j := range b {
+						b[j] = upper(b[j])
+					}
+				default: // one letter somewhere
+					j := cr.Intn(len(b))
+					b[j] = upper(b[j])
+				}
+				segs[k] = string(b)
+			}
+			a.Rel = "/" + strings.Join(segs, "/")
+		}
+		a.Full = joinPrefix(ts.Apps[a.Parent].Full, a.Rel)
+	}
+}
+
+func upper(c byte) byte {
+	if c >= 'a' && c <= 'z' {
+		return c - 32
+	}
+	return c
+}
+
+// mixCase returns s with the case of some letters flipped (at least one if s has a letter).
 func mixCase(r *gen.Rand, s string) string {
 	b := []byte(s)
+	flip := func(i int) bool {
+		switch {
+		case b[i] >= 'a' && b[i] <= 'z':
+			b[i] -= 32
+		case b[i] >= 'A' && b[i] <= 'Z':
+			b[i] += 32
+		default:
+			return false
+		}
+		return true
+	}
 	changed := false
 	for i := range b {
 		if b[i] >= 'a' && b[i] <= 'z' && r.Chance(1, 3) {
-			b[i] -= 32
+			flip(i)
+			changed = true
+		} else if b[i] >= 'A' && b[i] <= 'Z' && r.Chance(1, 2) {
+			flip(i)
 			changed = true
 		}
 	}
-	if !changed {
-		for i := range b {
-			if b[i] >= 'a' && b[i] <= 'z' {
-				b[i] -= 32
-				break
-			}
-		}
+	for i := 0; !changed && i < len(b); i++ {
+		changed = flip(i)
 	}
 	return string(b)
 }
